@@ -89,7 +89,8 @@ impl<R: Read, TSpec> TagIterator<R, TSpec>
     /// This initializes the [`TagIterator`] with a specific byte capacity.  The iterator will still reallocate if necessary. (Reallocation occurs if the iterator comes across a tag that should be output as a [`Master::Full`] and its size in bytes is greater than the iterator's current buffer capacity.)
     ///
     pub fn with_capacity(source: R, tags_to_buffer: &[TSpec], capacity: usize) -> Self {
-        let buffer = vec![0;capacity];
+        // A tag header (id + size) can take up to 16 bytes and must fit in the buffer to be parsed
+        let buffer = vec![0;capacity.max(16)];
 
         TagIterator {
             source,
